@@ -9,8 +9,8 @@ import (
 
 type modSet struct {
 	all       bool
-	pats      []matcher   // pattern-selected classes (from callee modifies clauses)
-	excepts   [][]string  // for every havoc-all callee: the items it preserves
+	pats      []matcher  // pattern-selected classes (from callee modifies clauses)
+	excepts   [][]string // for every havoc-all callee: the items it preserves
 	exceptPkg []string
 	classes   map[string]bool
 	allocs    map[*ssa.Alloc]bool
